@@ -152,6 +152,7 @@ type caseState struct {
 	deliverys atomic.Int64
 
 	tunnels []*tunnel
+	users   []*user
 
 	// ports leased to this case (released when the case ends): a port of the static range that is only
 	// transiently unbound (proxy re-registration, visitor restart) must not be handed to another case
@@ -378,6 +379,9 @@ func startUser(cs *caseState, tun *tunnel, idx int) (*user, error) {
 	}
 	_ = conn.SetReadBuffer(4 << 20)
 	u := &user{cs: cs, tun: tun, Idx: idx, conn: conn}
+	cs.mu.Lock()
+	cs.users = append(cs.users, u)
+	cs.mu.Unlock()
 	u.wg.Add(1)
 	go u.readLoop()
 	return u, nil
@@ -458,6 +462,12 @@ func (u *user) onReply(p []byte, from *net.UDPAddr) {
 				}
 				u.mu.Unlock()
 			}
+			if other := cs.expectedByOther(u, p); other != nil {
+				cs.c.Ev("user-misdelivered", "user", u.Idx, "payload", clip(p), "belongs_to", other.Idx)
+				cs.integrity("reply-delivered-to-wrong-user", "a %d-byte reply %s that the backend sent in answer to user %d (%s) was delivered to user %d (%s)",
+					len(p), clip(p), other.Idx, other.conn.LocalAddr(), u.Idx, u.conn.LocalAddr())
+				return
+			}
 			cs.c.Ev("user-unknown", "user", u.Idx, "payload", clip(p), "expected", exp)
 			cs.integrity(key, "user %d of tunnel %d received %s which is not a reply any backend sent to it (outstanding expected replies: %v)", u.Idx, u.tun.Idx, clip(p), exp)
 		}
@@ -466,6 +476,33 @@ func (u *user) onReply(p []byte, from *net.UDPAddr) {
 	if pd != nil && rid.req() == pd.id {
 		pd.take(p, u)
 	}
+}
+
+// expectedByOther finds another user whose outstanding exchange expects exactly this header-less reply.
+func (cs *caseState) expectedByOther(me *user, p []byte) *user {
+	cs.mu.Lock()
+	us := append([]*user(nil), cs.users...)
+	cs.mu.Unlock()
+	for _, o := range us {
+		if o == me {
+			continue
+		}
+		o.mu.Lock()
+		pd := o.pend
+		found := false
+		if pd != nil {
+			for _, w := range pd.want {
+				if len(w) < hdrLen && bytes.Equal(w, p) {
+					found = true
+				}
+			}
+		}
+		o.mu.Unlock()
+		if found {
+			return o
+		}
+	}
+	return nil
 }
 
 // take removes p from the expected multiset; closes done when nothing is left.
